@@ -36,6 +36,7 @@ func init() {
 	reg.Register("c12.retry", "C12", retry)
 	reg.Register("c12.faults", "C12", faults)
 	reg.Register("c12.eof", "C12", eofSweep)
+	reg.Register("c12.reentrant", "C12", reentrant)
 }
 
 var (
